@@ -208,6 +208,19 @@ CLAIMED["C11"] = dict(
          "the same run. One genuine defect repaired (fix:). Inputs are sampled.",
     note=TB + "Trusted glue: choice of the definition by tensor name + index spaces, numerator distribution and monic brackets (harness), the obligation generator. Residual intermediates (shared symbol 'Zero') and occurrences with repeated actual indices are not covered; RuntimeError refusals of the factorisation are counted, not judged.")
 
+CLAIMED["C02"] = dict(
+    category="translation_validation", design="DESIGN.md §4 C02",
+    technique="operator-level RSPT formulas evaluated by the Lean model of Wick's theorem (wickTerm_sound) and compared with the derived expressions by the proved checker checkEquiv; plus exact determinant-space RSPT (exploration over random model Hamiltonians)",
+    text="(1) For every enumerated (partitioning, singles flag, order, class / operator rank) the harness writes the RSPT quantity at the "
+         "operator level (H0/H1 block by block, wavefunction ansatz, projection, series inverse of the norm), the Lean model wickExpr "
+         "evaluates the vacuum expectation values - by wickTerm_sound these equal the Fock-space values for all coefficient tensors "
+         "and orbital models - and the code's energy / amplitude / residual / expectation value must be accepted by checkEquiv as equal, "
+         "i.e. for all Hamiltonians, orbital energies, lower-order amplitudes and index assignments. (2) The same expressions are "
+         "evaluated with the integrals and wavefunction coefficients of explicit determinant-space RSPT (exact rationals, random "
+         "canonical-HF models up to 8 spin orbitals) and must reproduce energies, amplitudes, vanishing RE residuals and "
+         "expectation values exactly. (1) is unbounded in the Hamiltonian but enumerated in the order; (2) is exploration.",
+    note=TB + "Trusted: harness/recipes.py (operator-level statement of RSPT), harness/detspace.py (determinant-space linear algebra, self-tested). No Lean theorem connects the operator-level formulas with the determinant-space recursion (K14a of the design is not built); that link is explored numerically.")
+
 PENDING = {
 }
 
